@@ -96,6 +96,55 @@ fn run(line: &str) -> String {
         return format!("{{\"violated\":{},\"detail\":\"{}\",\"other\":\"{}\"}}", !hit.is_empty(), any.replace('"', "'"),
                        problems.iter().map(|(c, _)| *c).collect::<Vec<_>>().join(","));
     }
+    if kind == "bevy_chain_other" || kind == "bevy_selector" {
+        let mut app = App::new();
+        app.add_plugins((AnimationPlugin::<V>::new(), AnimationPlugin::<W>::new())).init_resource::<Time>();
+        app.register_animation_key::<V, Key>();
+        let go = V::timeline().duration_seconds(10.0).keyframe(V::keyframe(0.0).x(10.0)).keyframe(V::keyframe(1.0).x(20.0)).build();
+        let back = V::timeline().duration_seconds(2.0).keyframe(V::keyframe(1.0).x(-5.0)).build();
+        let selector = AnimationSelectorBuilder::<Key, V>::new().add(Key::Go, go).add(Key::Back, back).initial_key(Key::Idle).build();
+        let chain = AnimationChainBuilder::<Key>::new().add(Key::Go, Key::Back).build();
+        let short_w = W::timeline().duration_seconds(0.5).keyframe(W::keyframe(1.0).y(1.0)).build();
+        let e = app.world.spawn((V { x: 3.0 }, W { y: 0.0 }, Animator::<V>::new(), Animator::<W>::with_timeline(short_w), selector, chain)).id();
+        let mut now = Instant::now();
+        app.world.resource_mut::<Time>().update_with_instant(now);
+        let mut step = |app: &mut App, dt: f32| { now += Duration::from_secs_f32(dt); app.world.resource_mut::<Time>().update_with_instant(now); app.update(); };
+        let mut problems: Vec<String> = vec![];
+        step(&mut app, 0.1);
+        // assign the key Go: the component must not jump in that frame and then follows the Go timeline
+        let before = app.world.get::<V>(e).unwrap().x;
+        app.world.get_mut::<AnimationSelector<Key, V>>(e).unwrap().timeline_key = Key::Go;
+        step(&mut app, 0.1);
+        let after = app.world.get::<V>(e).unwrap().x;
+        if kind == "bevy_selector" && before != after { problems.push(format!("component jumped from {} to {} in the frame in which the key changed", before, after)); }
+        let mut key_trace = vec![];
+        for _ in 0..6 {
+            step(&mut app, 0.3);
+            let k = app.world.get::<AnimationSelector<Key, V>>(e).unwrap().timeline_key;
+            let sv = app.world.get::<Animator<V>>(e).unwrap().state();
+            key_trace.push(format!("{:?}/{:?}", k, sv));
+            if kind == "bevy_chain_other" && k != Key::Go && sv != AnimationState::Ended && problems.is_empty() {
+                problems.push(format!("selector<Key,V> moved from Go to {:?} although Animator<V> is still {:?}: the Ended event of Animator<W> (another component type on the same entity) fired the chain", k, sv));
+            }
+        }
+        if kind == "bevy_selector" {
+            // re-assigning the current key does not restart anything
+            let k = app.world.get::<AnimationSelector<Key, V>>(e).unwrap().timeline_key;
+            let p0 = app.world.get::<Animator<V>>(e).unwrap().timeline_position;
+            app.world.get_mut::<AnimationSelector<Key, V>>(e).unwrap().timeline_key = k;
+            step(&mut app, 0.0);
+            let p1 = app.world.get::<Animator<V>>(e).unwrap().timeline_position;
+            if p1 < p0 { problems.push(format!("re-assigning the current key restarted the animation ({:?} -> {:?})", p0, p1)); }
+            // a key without a timeline stops animation and leaves the component alone
+            app.world.get_mut::<AnimationSelector<Key, V>>(e).unwrap().timeline_key = Key::NoTl;
+            step(&mut app, 0.1);
+            let x1 = app.world.get::<V>(e).unwrap().x;
+            step(&mut app, 0.5);
+            let x2 = app.world.get::<V>(e).unwrap().x;
+            if x1 != x2 { problems.push(format!("component changed from {} to {} under a key without a timeline", x1, x2)); }
+        }
+        return format!("{{\"violated\":{},\"detail\":\"{}\",\"trace\":\"{}\"}}", !problems.is_empty(), problems.join("; ").replace('"', "'"), key_trace.join(" "));
+    }
     format!("{{\"error\":\"unknown kind {}\"}}", kind)
 }
 
